@@ -17,7 +17,7 @@ class Borrow:
         return str(c)
 
 
-def cell_of(ctx, body, arg_expr):
+def cell_of(ctx, body, arg_expr, depth=0):
     facts = ctx.facts
     ch, root = field_chain(arg_expr)
     loc = [(o, f) for (o, f) in ch if o in facts.adts]
@@ -34,6 +34,19 @@ def cell_of(ctx, body, arg_expr):
         rb3, r3 = ctx.model.resolve_root(rb, root2)
         if isinstance(r3, tuple) and r3 and r3[0] == "tls":
             return ("tls", r3[1])
+    # the cell is a parameter of a helper: resolve through the call sites (union must be a single cell)
+    if isinstance(root, tuple) and root and root[0] == "arg" and body.kind != "closure" and depth < 3:
+        cells = set()
+        for (src, bi) in ctx.cg.sites_of.get(body.id, []):
+            sb = ctx.facts.bodies[src]
+            t = sb.blocks[bi]["term"]
+            if root[1] - 1 < len(t["args"]):
+                cells.add(cell_of(ctx, sb, ctx.sym(sb).operand(t["args"][root[1] - 1]), depth + 1))
+        cells.discard(None)
+        if len(cells) == 1:
+            return cells.pop()
+        if len(cells) > 1 and all(c[0] != "unknown" for c in cells):
+            return ("multi", tuple(sorted(cells)))
     return ("unknown", body.id, S.show(arg_expr, body)[:50])
 
 
